@@ -80,6 +80,8 @@ package gorm
 //@   ensures context: result.Statement.Context == db.Statement.Context [C18]
 //@   ensures config: result.Config == db.Config && result.Error == db.Error [C19,C05]
 //@   ensures skiphooks: result.Statement.SkipHooks == db.Statement.SkipHooks [C13]
+//@   ensures new-statement-is-scoped-unless-asked-to-propagate: db.clone == 1 && !db.Config.PropagateUnscoped ==> !result.Statement.Unscoped [C08]
+//@   ensures new-statement-propagates-unscoped-on-request: db.clone == 1 && db.Config.PropagateUnscoped ==> result.Statement.Unscoped == db.Statement.Unscoped [C08]
 
 //@ func NewPreparedStmtDB
 //@   tags C06
@@ -1039,6 +1041,40 @@ package gorm
 //@   in gorm.(*Statement).AddVar
 //@   min-sites 1
 //@   assert own-case: true [C03,C01]
+
+//@ # ---------- C04: a dedicated connection goes back to the pool however the block ends ----------
+//@ ghost connOpened connClosed
+//@ event call database/sql.(*DB).Conn
+//@   in gorm.(*DB).Connection
+//@   do connOpened = connOpened + ite(tagof(result1) == 0, 1, 0)
+//@ event call database/sql.(*Conn).Close
+//@   in gorm.(*DB).Connection
+//@   do connClosed = connClosed + 1
+//@ func (*DB).Connection
+//@   tags C04
+//@   may-panic fc
+//@   ensures connection-released: connClosed - old(connClosed) == connOpened - old(connOpened)
+//@   ensures-on-panic connection-released: connClosed - old(connClosed) == connOpened - old(connOpened)
+//@ # Save points of nested blocks are told apart by a random id: a name derived from the handle or the block function
+//@ # collides when a block opens a descendant through the enclosing handle, and ROLLBACK TO then undoes too little.
+//@ site savepoint-names-are-random
+//@   match call hash/maphash.(*Hash).Sum64
+//@   in gorm.(*DB).Transaction
+//@   min-sites 1
+//@   assert drawn-for-this-block: true [C04]
+
+//@ # ---------- C16: Attrs / Assign given as a pointer to a struct are read through the pointer ----------
+//@ site attrs-struct-read-through-pointers
+//@   match call reflect.Indirect
+//@   in gorm.(*DB).assignInterfacesToValue
+//@   min-sites 1
+//@   assert value-indirected: true [C16]
+//@ # FirstOrCreate on a miss applies Assign whether or not Attrs were given too.
+//@ site first-or-create-assigns-with-or-without-attrs
+//@   match call gorm.(*DB).assignInterfacesToValue
+//@   in gorm.(*DB).FirstOrCreate
+//@   min-sites 3
+//@   cover assign-applied-next-to-attrs: arg1 != db.Statement.assigns || len(db.Statement.attrs) > 0 [C16]
 
 //@ # ---------- C18/C04: a nested block is set up and undone on the caller's handle ----------
 //@ # SAVEPOINT and ROLLBACK TO SAVEPOINT of a nested Transaction carry the same context (and run on the same
